@@ -157,6 +157,13 @@ def writer_rows(tier: str, seed: int) -> list[dict]:
     floats = [0.0, -0.0, 1.0, -1.5, 5e-324, 1.7976931348623157e308, -2.2250738585072014e-308, 0.1,
               float("inf"), float("-inf"), 123456.789] + [rng.uniform(-1, 1) * 10 ** rng.randint(-300, 300)
                                                           for _ in range(200)]
+    # NaNs are doubles too: Kafka writes the raw bits (ByteBuffer.putDouble), so sign and payload of a quiet
+    # NaN must reach the wire (signalling NaNs are left out: whether a platform quiets them on a move is not
+    # kio's business)
+    import struct as _struct
+    floats += [_struct.unpack(">d", q.to_bytes(8, "big"))[0]
+               for q in (0x7FF8000000000000, 0xFFF8000000000000, 0x7FF8000000000001, 0x7FFC0000DEADBEEF,
+                         0xFFFFFFFFFFFFFFFF, 0x7FF8000000000000 | rng.getrandbits(51))]
     for v in floats:
         add("write_float64", afloat(v), lambda s, v=v: w.write_float64(s, v))
     # strings / bytes
